@@ -503,6 +503,15 @@ func cmdCheck(args []string) int {
 		if lg := os.Getenv("VERIF_SMTLOG"); lg != "" {
 			cfg.SMTLog = lg
 		}
+		// VERIF_SOLVER=z3-new (or "cvc5") discharges every query of the run
+		// with another solver: used to diff solvers after an encoding change
+		switch sv := os.Getenv("VERIF_SOLVER"); sv {
+		case "":
+		case "cvc5":
+			cfg.SolverBin, cfg.SolverArgs = "cvc5", []string{"--incremental", "--produce-models", "--lang=smt2", "--tlimit-per=60000"}
+		default:
+			cfg.SolverBin, cfg.SolverArgs = sv, []string{"-in"}
+		}
 		// self-test knobs: validate many more paths against the native
 		// build than the default 3 per job (VERIF_SAMPLES per worker from
 		// the start of its share, VERIF_SAMPLE_EVERY: every n-th path)
@@ -704,7 +713,7 @@ func cmdCheck(args []string) int {
 		"stubs_used":                    stubsUsed,
 		"queries":                       map[string]int{"total": total.Queries, "sat": total.Sat, "unsat": total.Unsat, "unknown": total.Unknown},
 		"solver_s":                      total.SolverTime.Seconds(),
-		"solver":                        "z3 4.8.12 (-in, push/pop), one process per worker",
+		"solver":                        solverName(),
 		"workers":                       workers,
 		"outside_claim":                 c.Outside,
 		"known_findings_reproduced":     out.known,
@@ -746,6 +755,13 @@ func cmdCheck(args []string) int {
 	}
 	fmt.Printf("[%s] %s: held on everything explored (%d paths, %d queries, %.1fs)\n", id, tier, total.Paths, total.Queries, time.Since(t0).Seconds())
 	return 0
+}
+
+func solverName() string {
+	if sv := os.Getenv("VERIF_SOLVER"); sv != "" {
+		return sv + " (VERIF_SOLVER), one process per worker"
+	}
+	return "z3 4.8.12 (-in, push/pop), one process per worker"
 }
 
 // engineWhy says why a concrete engine run did not end as one clean path.
